@@ -40,7 +40,7 @@ def spec_unsigned(a):
     return z3.If(a < 0, a + TWO32, a)
 
 
-@harness("blocks._instrsize.spec", props=["C01", "C03"], functions=["code_data._blocks._instrsize"], configs="any",
+@harness("blocks._instrsize.spec", props=["C01", "C03", "C05", "C06"], functions=["code_data._blocks._instrsize"], configs="any",
          notes="result is CPython's instrsize(): the minimal n in 1..4 with (unsigned)arg < 256**n; all ints in [-2^31, 2^32)")
 def h_instrsize(ctx, cfg):
     f = real("_instrsize")
@@ -55,7 +55,7 @@ def h_instrsize(ctx, cfg):
     ctx.prove("post.n_is_minimal", z3.BoolVal(True) if n == 1 else u >= 256 ** (n - 1))
 
 
-@harness("blocks._instrsize.monotone", props=["C03"], functions=["code_data._blocks._instrsize"], configs="any",
+@harness("blocks._instrsize.monotone", props=["C03", "C05", "C06"], functions=["code_data._blocks._instrsize"], configs="any",
          notes="0 <= a <= b  =>  size(a) <= size(b): operand growth never shrinks an instruction (termination variant of the relaxation loop)")
 def h_instrsize_mono(ctx, cfg):
     f = real("_instrsize")
@@ -342,6 +342,7 @@ def h_fromargs_add(ctx, cfg):
         slot = z3.If(z3.Select(K0d, v.z), z3.IntVal(-1), I0s)
     ctx.prove("post.frame_I", z3.ForAll([j], z3.Implies(j != slot, z3.And(z3.Select(I.dom, j) == z3.Select(I0d, j), z3.Select(I.val, j) == z3.Select(I0v, j)))))
     ctx.prove("post.slot_holds_value", z3.Implies(slot >= 0, z3.And(z3.Select(I.dom, slot), z3.Select(I.val, slot) == v.z)))
+    ctx.prove("post.never_overwrites_an_occupied_slot_with_a_different_value(C03: collide => raise)", z3.Implies(z3.And(slot >= 0, z3.Select(I0d, slot)), z3.Select(I0v, slot) == v.z))
     ctx.prove("post.key_resolves_to_first_index_stored", z3.Implies(slot >= 0, z3.And(z3.Select(K.dom, v.z), z3.Select(K.val, v.z) == z3.If(z3.Select(K0d, v.z), z3.Select(K0v, v.z), slot))))
     ctx.prove("post.frame_K", z3.ForAll([j], z3.Implies(j != v.z, z3.And(z3.Select(K.dom, j) == z3.Select(K0d, j), z3.Select(K.val, j) == z3.Select(K0v, j)))))
 
